@@ -389,6 +389,20 @@ void load_known(const std::string &path) {
 bool known_open(const std::string &key) { return g_known_keys.count(key) != 0; }
 void stats_add(const std::string &cls, uint64_t n) { S.classes[cls] += n; }
 void stats_note(const std::string &key, const std::string &json_value) { S.notes[key] = json_value; }
+void write_mode_case(const std::string &mode_and_args, const std::string &symptom, const std::string &detail) {
+  std::string path = g_out + "/found.case";
+  FILE *f = fopen(path.c_str(), "w");
+  if (!f) return;
+  fprintf(f, "property=%s\nmode=%s\nsymptom=%s\n", g_prop.c_str(), mode_and_args.c_str(), symptom.c_str());
+  size_t p = 0;
+  while (p < detail.size()) {
+    size_t q = detail.find('\n', p);
+    if (q == std::string::npos) q = detail.size();
+    fprintf(f, "# case: %s\n", detail.substr(p, q - p).c_str());
+    p = q + 1;
+  }
+  fclose(f);
+}
 void stats_commit_case() {
   commit(g_case);
   g_case.clear();
@@ -429,6 +443,35 @@ int engine_main(int argc, char **argv, const Harness &h) {
   int rc_exit = 0;
   if (!replay.empty()) {
     std::vector<uint32_t> ch;
+    std::string mode_line;
+    {
+      FILE *mf = fopen(replay.c_str(), "r");
+      char *line = nullptr;
+      size_t cap = 0;
+      while (mf && getline(&line, &cap, mf) > 0)
+        if (strncmp(line, "mode=", 5) == 0) {
+          mode_line = line + 5;
+          while (!mode_line.empty() && (mode_line.back() == '\n' || mode_line.back() == ' ')) mode_line.pop_back();
+        }
+      free(line);
+      if (mf) fclose(mf);
+    }
+    if (!mode_line.empty()) {
+      std::vector<std::string> toks;
+      std::istringstream is(mode_line);
+      std::string t;
+      while (is >> t) toks.push_back(t);
+      std::vector<char *> av;
+      for (size_t i = 1; i < toks.size(); i++) av.push_back(const_cast<char *>(toks[i].c_str()));
+      int r = h.extra ? h.extra(toks[0], (int)av.size(), av.data()) : -1;
+      if (h.teardown) h.teardown();
+      if (r == 0) {
+        printf("REPLAY PASS property=%s\n", g_prop.c_str());
+        return 0;
+      }
+      printf("REPLAY FAIL property=%s mode=%s\n", g_prop.c_str(), mode_line.c_str());
+      return 10;
+    }
     if (!read_case(replay, ch)) {
       fprintf(stderr, "cannot read case file %s\n", replay.c_str());
       return 2;
@@ -455,23 +498,50 @@ int engine_main(int argc, char **argv, const Harness &h) {
     rc_exit = r;
   } else {
     const int base = h.base, per = h.per_size;
-    auto elem = rc::gen::resize(rc::kNominalSize, rc::gen::arbitrary<uint32_t>());
-    auto gen = rc::gen::withSize([=](int size) {
-      return rc::gen::resize(base + size * per, rc::gen::container<std::vector<uint32_t>>(elem));
+    // A custom rapidcheck generator: the choice sequence is drawn directly from
+    // rapidcheck's own splittable Random (seeded through RC_PARAMS); its length is
+    // uniform in [0, base + size*per_size].  No per-element Shrinkable is built
+    // (shrinking is done on the sequence by the code below), which makes
+    // generation ~20x cheaper than gen::container for sequences of ~1000 choices.
+    rc::Gen<std::vector<uint32_t>> gen([=](const rc::Random &random, int size) {
+      rc::Random r = random;
+      size_t maxlen = (size_t)base + (size_t)size * (size_t)per;
+      size_t len = (size_t)(r.next() % (maxlen + 1));
+      std::vector<uint32_t> v(len);
+      for (size_t i = 0; i < len; i += 2) {
+        uint64_t x = r.next();
+        v[i] = (uint32_t)x;
+        if (i + 1 < len) v[i + 1] = (uint32_t)(x >> 32);
+      }
+      return rc::shrinkable::just(std::move(v));
     });
     std::string cur = g_out + "/current.case", found = g_out + "/found.case";
     unlink(found.c_str());
     uint64_t since_flush = 0;
     signal(SIGALRM, on_alarm);
+    // the case about to run is kept in current.case (picked up by the driver
+    // after a sanitizer abort); one fd, overwritten in place
+    int cur_fd = open(cur.c_str(), O_WRONLY | O_CREAT | O_TRUNC, 0644);
+    std::string cur_buf;
     auto evaluate = [&](const std::vector<uint32_t> &ch) {
-      write_case(cur, ch, "", "", "");
+      if (cur_fd >= 0) {
+        cur_buf = "property=" + g_prop + "\nchoices=";
+        char nb[16];
+        for (size_t i = 0; i < ch.size(); i++) {
+          int k = snprintf(nb, sizeof nb, i ? ",%u" : "%u", ch[i]);
+          cur_buf.append(nb, (size_t)k);
+        }
+        cur_buf += "\n";
+        if (pwrite(cur_fd, cur_buf.data(), cur_buf.size(), 0) < 0 || ftruncate(cur_fd, (off_t)cur_buf.size()) != 0) {
+        }
+      }
       alarm(g_case_timeout);
       RunRes r = isolate ? run_forked(ch) : run_inproc(ch);
       alarm(0);
       return r;
     };
     bool ok = rc::check(std::string("property ") + g_prop, [&]() {
-      std::vector<uint32_t> ch = *rc::gen::noShrink(gen);
+      std::vector<uint32_t> ch = *gen;
       RunRes r = evaluate(ch);
       if (r.ok) {
         commit(g_case);
